@@ -59,13 +59,24 @@ def solver_stub(ctx, log):
     return solve
 
 
-def case_partitioned_solve(ctx, subset):
+def _partition_sets(which, n=8):
+    allsets = [tuple(c) for k in range(n + 1) for c in itertools.combinations(range(n), k)]
+    if which != "all":
+        rng = np.random.default_rng(5)
+        pick = [(), tuple(range(n)), (0,), (n - 1,), (0, 1, 2, 3), (1, 3, 5, 7)]
+        pick += [allsets[i] for i in rng.choice(len(allsets), 8, replace=False)]
+        allsets = pick
+    return [d0 for d0 in allsets if len(d0) < n]
+
+
+def case_partitioned_solve(ctx, dof0, ext_given=True):
+    """one partition (prescribed set dof0) per case: data-dependent branches inside partition / solve are explored per partition"""
     from felupe.solve import partition, solve
 
     field = tiny_field(ctx)
     n = 8
     dt = object if ctx.sym else float
-    Kd = ctx.array("K", (n, n), -2, 2) + 20 * np.eye(n, dtype=int)  # diagonally dominant: regular in float replays
+    Kd = ctx.array("K", (n, n), -2, 2) + 20 * np.eye(n, dtype=int)  # diagonally dominant: regular in float replays; NOT symmetric
     if ctx.sym:
         from symnp.spstub import SymSparse
 
@@ -77,29 +88,23 @@ def case_partitioned_solve(ctx, subset):
     r = ctx.array("r", (n,), -2, 2)
     ext = ctx.array("e", (n,), -1, 1)
     u = np.asarray(field[0].values).reshape(-1)
-    allsets = [tuple(c) for k in range(n + 1) for c in itertools.combinations(range(n), k)]
-    if subset != "all":
-        rng = np.random.default_rng(5)
-        pick = [(), tuple(range(n)), (0,), (n - 1,), (0, 1, 2, 3), (1, 3, 5, 7)]
-        pick += [allsets[i] for i in rng.choice(len(allsets), 20, replace=False)]
-        allsets = pick
-    for pid, d0 in enumerate(allsets):
-        dof0 = np.array(d0, dtype=int)
-        dof1 = np.array([i for i in range(n) if i not in d0], dtype=int)
-        if len(dof1) == 0:
-            continue
-        log = []
-        ext0 = ext[dof0]
-        system = partition(field, K, dof1, dof0, r)
-        du = np.asarray(solve(*system, ext0, solver=solver_stub(ctx, log))).reshape(-1)
-        tag = "[dof0=%s]" % ",".join(map(str, d0))
-        call = log[-1]
-        ctx.equal("solver_matrix_is_K11" + tag, call["A"], Kd[np.ix_(dof1, dof1)])
+    d0 = tuple(dof0)
+    dof0 = np.array(d0, dtype=int)
+    dof1 = np.array([i for i in range(n) if i not in d0], dtype=int)
+    log = []
+    ext0 = ext[dof0] if ext_given else None
+    system = partition(field, K, dof1, dof0, r)
+    du = np.asarray(solve(*system, ext0, solver=solver_stub(ctx, log))).reshape(-1)
+    call = log[-1]
+    ctx.equal("solver_matrix_is_K11", call["A"], Kd[np.ix_(dof1, dof1)])
+    if ext_given:
         rhs = np.array([-r[i] - sum(Kd[i, j] * (ext[j] - u[j]) for j in dof0) for i in dof1], dtype=dt)
-        ctx.equal("solver_rhs_is_minus_r1_minus_K10_du0" + tag, call["b"], rhs)
-        ctx.equal("free_increments_are_solver_result" + tag, du[dof1], call["x"])
-        if len(dof0):
-            ctx.equal("prescribed_increments" + tag, du[dof0], ext[dof0] - u[dof0])
+    else:
+        rhs = np.array([-r[i] for i in dof1], dtype=dt)
+    ctx.equal("solver_rhs_is_minus_r1_minus_K10_du0", call["b"], rhs)
+    ctx.equal("free_increments_are_solver_result", du[dof1], call["x"])
+    if len(dof0):
+        ctx.equal("prescribed_increments", du[dof0], (ext[dof0] - u[dof0]) if ext_given else np.zeros(len(dof0), dtype=int))
 
 
 class StubItem:
@@ -268,7 +273,7 @@ def case_prescribed_mixed(ctx):
 
 
 def cases(tier):
-    out = [("partitioned_solve", case_partitioned_solve, {"subset": "sample" if tier == "quick" else "all"})]
+    out = [("partitioned_solve", case_partitioned_solve, {"dof0": list(d0), "max_paths": 32}) for d0 in _partition_sets("sample" if tier == "quick" else "all")]
     for mi in (1, 2, 3):
         out.append(("newton", case_newton, {"maxiter": mi, "nitems": 1, "max_paths": 16}))
     out.append(("newton", case_newton, {"maxiter": 2, "nitems": 2, "max_paths": 16}))
